@@ -1,0 +1,15 @@
+//go:build verif
+
+package labelpatch
+
+import (
+	"github.com/openkruise/rollouts/api/v1beta1"
+	"k8s.io/klog/v2"
+)
+
+// VerifCalculatePlannedStepIncrements exposes calculatePlannedStepIncrements to the
+// verification harness (build tag `verif` only).
+func VerifCalculatePlannedStepIncrements(batches []v1beta1.ReleaseBatch, workloadReplicas, currentBatch int) []int {
+	r := &realPatcher{logKey: klog.ObjectRef{Name: "verif"}, batches: batches}
+	return r.calculatePlannedStepIncrements(batches, workloadReplicas, currentBatch)
+}
